@@ -454,6 +454,14 @@ Fixpoint run_handler (fuel : nat) (script : list N) (r : rstate) (w : world) : r
       | Ok (inl (c, b), r') w' => run_handler f rest r' (w_ev (w_ev w' [1; 1; c]) b)
       | Ok (inr k, r') w' => Ok (inr k, r') (w_ev (w_ev w' [1; 0; k]) [])
       end
+    | 11 :: n :: rest =>
+      (* poll a read of n bytes ONCE (not awaited): a Pending future is abandoned; then the handler looks at is_writeable().
+         event [11; 1 = Ok / 0 = Err / 2 = Pending; count or kind; writeable] followed by the bytes read *)
+      match poll_input (io_fuel w (len (buffer (rsp r)))) (Some n) r w with
+      | (PReady (inl (c, b)), r', w') => run_handler f rest r' (w_ev (w_ev w' [11; 1; c; if rwriteable r' then 1 else 0]) b)
+      | (PReady (inr k), r', w') => run_handler f rest r' (w_ev (w_ev w' [11; 0; k; if rwriteable r' then 1 else 0]) [])
+      | (_, r', w') => run_handler f rest r' (w_ev (w_ev w' [11; 2; 0; if rwriteable r' then 1 else 0]) [])
+      end
     | _ => Halt (OPanic 71) w
     end
   end.
